@@ -145,6 +145,9 @@ def run(rep, F, ctx):
     rep.rule('FWD', 'the PathExt method forms used by Memfs::_abs are transparent forwarders to the free functions used by Stdfs::abs')
     n = fwd.static_forwarders(rep, F, 'std::path::Path', fwd.PATHEXT_TRAIT, 'sys::fs::path::{name}', False)
     rep.floor('FWD', 'PathExt forwarders', n, 21)
+    import siteguard as _sg
+    _t = engine.load_table('site_guards.json')
+    _sg.site_guard(rep, F, cg, _t, _t['_groups']['C05'])
     return engine.finish(
         rep, 'other', EXPLANATION,
         assumptions=['results of other local VFS operations (e.g. mkfile, abs) are resolved paths', 'the sink table (rules/absrules.py IO_SINK + MemfsGuard accessors) lists where a path is interpreted'],
